@@ -53,7 +53,9 @@ const SESSION_ASSUMPTIONS: &[&str] = &[
 fn scenario_for(property: &str, name: &str, thorough: bool, known: &Known) -> Option<Box<dyn Scenario>> {
     Some(match (property, name) {
         ("C01", _) => Box::new(props_core::c01(known)),
+        ("C05", "lazy-cleanup-no-dedup") => Box::new(props_core::c05_lazy(known)),
         ("C05", _) => Box::new(props_core::c05(known)),
+        ("C03", "lazy-cleanup-no-dedup") => Box::new(props_core::c03_lazy(known)),
         ("C03", _) => Box::new(props_core::c03(known, 3)),
         ("C06", "four-clients") => Box::new(props_core::c06_four(known)),
         ("C06", "locks-and-data") => Box::new(props_core::c06(known, &[0, 1], &["x", "x/y"], true)),
@@ -88,6 +90,16 @@ fn main() {
         std::process::exit(persist::child_main(&args[2..]));
     }
     c12::init_role_configs();
+    if args[1] == "ops" {
+        // wbmc-core ops <Cxx> [scenario] : the indexed alphabet of a replayable scenario
+        let known = Known::load();
+        if let Some(sc) = scenario_for(&args[2], args.get(3).map(|s| s.as_str()).unwrap_or(""), false, &known) {
+            for i in 0..sc.num_ops() {
+                println!("{i} {}", sc.op_json(i as u16));
+            }
+        }
+        return;
+    }
     if args[1] == "debug-e2e" {
         worterbuch::logging::init().ok();
         let sc = c11e2e::scenario();
@@ -119,6 +131,13 @@ fn main() {
                 Box::new(props_core::c01(&known)),
                 Tiered { quick: lim(7, 3, true, 40), thorough: lim(12, 5, true, 600) },
                 "graph",
+            ), (
+                // short histories without de-duplication: state the snapshot cannot see (a cache a
+                // change might add) is not merged away
+                "store-no-dedup".into(),
+                Box::new(props_core::c01(&known)),
+                Tiered { quick: lim(3, 3, false, 30), thorough: lim(4, 3, false, 400) },
+                "tree",
             )],
             CORE_ASSUMPTIONS,
             "every history over the listed request alphabet up to the completed depth, de-duplicated by a complete state snapshot; a case is one (state, request) transition; distinct_nontrivial counts distinct (request kind, answer class) pairs observed",
@@ -132,6 +151,16 @@ fn main() {
                 Box::new(props_core::c05(&known)),
                 Tiered { quick: lim(6, 3, true, 40), thorough: lim(9, 4, true, 600) },
                 "graph",
+            ), (
+                "ls-no-dedup".into(),
+                Box::new(props_core::c05(&known)),
+                Tiered { quick: lim(3, 3, false, 30), thorough: lim(4, 3, false, 400) },
+                "tree",
+            ), (
+                "lazy-cleanup-no-dedup".into(),
+                Box::new(props_core::c05_lazy(&known)),
+                Tiered { quick: lim(6, 4, false, 30), thorough: lim(7, 6, false, 400) },
+                "tree",
             )],
             CORE_ASSUMPTIONS,
             "every history over the listed request alphabet (mutators + ls subscriptions at every position) up to the completed depth, de-duplicated by a complete state snapshot; distinct_nontrivial counts distinct (request kind, answer class) pairs observed",
@@ -397,6 +426,16 @@ fn main() {
                 Box::new(props_core::c03(&known, 3)),
                 Tiered { quick: lim(6, 3, true, 40), thorough: lim(9, 4, true, 600) },
                 "graph",
+            ), (
+                "events-no-dedup".into(),
+                Box::new(props_core::c03(&known, 3)),
+                Tiered { quick: lim(3, 3, false, 30), thorough: lim(4, 3, false, 400) },
+                "tree",
+            ), (
+                "lazy-cleanup-no-dedup".into(),
+                Box::new(props_core::c03_lazy(&known)),
+                Tiered { quick: lim(6, 4, false, 30), thorough: lim(8, 6, false, 400) },
+                "tree",
             )],
             CORE_ASSUMPTIONS,
             "every history over mutators, publish and (p)subscribe/unsubscribe/disconnect requests (at most 3 concurrent subscriptions) up to the completed depth, de-duplicated by a complete state snapshot; every receiver is drained after every request and compared with the reference's expected stream; distinct_nontrivial counts distinct (request kind, answer class) pairs",
@@ -410,6 +449,11 @@ fn main() {
                 Box::new(props_core::c06(&known, &[0, 1, 2], &["x", "x/y"], false)),
                 Tiered { quick: lim(7, 3, true, 40), thorough: lim(10, 5, true, 600) },
                 "graph",
+            ), (
+                "locks-no-dedup".into(),
+                Box::new(props_core::c06(&known, &[0, 1, 2], &["x", "x/y"], false)),
+                Tiered { quick: lim(4, 3, false, 30), thorough: lim(5, 3, false, 400) },
+                "tree",
             ), (
                 "locks-and-data".into(),
                 Box::new(props_core::c06(&known, &[0, 1], &["x", "x/y"], true)),
@@ -433,6 +477,11 @@ fn main() {
                 Box::new(props_core::c07(&known, tier == "thorough")),
                 Tiered { quick: lim(6, 3, true, 40), thorough: lim(8, 4, true, 600) },
                 "graph",
+            ), (
+                "sessions-no-dedup".into(),
+                Box::new(props_core::c07(&known, false)),
+                Tiered { quick: lim(3, 3, false, 30), thorough: lim(4, 3, false, 400) },
+                "tree",
             ), (
                 "locks-at-session-end".into(),
                 Box::new(props_core::c07_locks(&known)),
